@@ -70,6 +70,12 @@ def check_cli(chk) -> None:
             lib[name] = c
             first = norm(c.args[0]) if c.args else next((norm(k.value) for k in c.keywords if k.arg == "file_content"), None)
             chk.expect(content_var is not None and first == content_var, "cli-content", fi.site(c), f"{name} receives the document text", f"{name} receives `{first}` as file_content, which is not the text read from args.input", K(fi, f"content:{name}"), found=first)
+    # the parser hands an option over as the text that was given: a declaration that can change it (type=, nargs=, action=, const=, choices=, dest=)
+    # is not decided by the forms below
+    for a in astq.calls(fi.node, "add_argument"):
+        odd = [k.arg for k in a.keywords if k.arg not in ("help", "metavar", "required", "default") and not (k.arg == "type" and norm(k.value) == "str")]
+        if odd and a.args and isinstance(a.args[0], ast.Constant) and a.args[0].value not in ("input", "output"):
+            chk.error("cli-wiring", fi.site(a), f"option `{a.args[0].value}` is declared with {', '.join(str(x) + '=' for x in odd)}: what reaches the library for a given text is not decided by the pinned forms (and main could not be evaluated)")
     chk.expect(set(lib) == {"copy_from_to", "replace_value"}, "cli-dispatch", fi.where, "both library functions are reachable from the CLI", "a library function is no longer called by the CLI", K(fi, "dispatch"))
     # option -> parameter wiring
     if "copy_from_to" in lib:
